@@ -117,7 +117,11 @@ def has_property_decorator(func_node: ast.FunctionDef | ast.AsyncFunctionDef) ->
     Returns:
         True if function has @property decorator
     """
-    return any(
-        isinstance(decorator, ast.Name) and decorator.id == "property"
-        for decorator in func_node.decorator_list
-    )
+    return any(_is_property_decorator(decorator) for decorator in func_node.decorator_list)
+
+
+def _is_property_decorator(decorator: ast.expr) -> bool:
+    """Recognise @property and the accessors of a property (@name.setter, @name.getter, @name.deleter)."""
+    if isinstance(decorator, ast.Name):
+        return decorator.id == "property"
+    return isinstance(decorator, ast.Attribute) and decorator.attr in ("setter", "getter", "deleter")
